@@ -27,12 +27,7 @@ DRIVER = 'drv_C10'
 HB = 0.004            # heartbeat interval used in scripts (virtual seconds)
 SOH = b'\x01'
 
-KNOWN_LOCAL = [
-    {'id': 'C10-encode-failure-gap', 'property': 'C10', 'status': 'known',
-     'signature': {'kind': 'fix-encode-failure-gap'},
-     'what': 'FixSession.send_msg takes next(self.sequence) before _prepare_complete_msg: a send whose encoding fails '
-             '(non-ASCII text in a string field) writes nothing but consumes a MsgSeqNum, the next frame leaves a gap'},
-]
+KNOWN_LOCAL = []      # C10-encode-failure-gap is repaired in /repo 9c458df (recorded as `fixed`, suppresses nothing)
 
 
 class Runaway(Exception):
